@@ -8,6 +8,10 @@ CONSTANTS
   Alphabet <- NoOps
   PreOps <- PreTamperQuick
   SibFields <- NoFields
+  SidPairs <- NoSid
   TamperMax = 2
-INVARIANTS TypeOK PRedactedIffMismatch PRedactedNoop PRedactedForm PIntact PIdSigIff PSigsTogether Emit
+  WireVersions <- VersionsSpread
+  DupShapes <- ShapesLite
+INVARIANTS TypeOK PRedactedIffMismatch PRedactedNoop PRedactedForm PIntact PIdSigIff PSigsTogether
+  PSpellingNeutral PCaseIsAnotherKey PDupOneReading PDupGenuineOnly PDupNoReadingHash PDupForgerOnly PDupSummaries Emit
 CHECK_DEADLOCK FALSE
